@@ -74,6 +74,10 @@ def run(sc):
   eulerdamp = not (int(sc["model"]["opt"].get("disableflags", 0)) & 32768)
   dt = float(mjm.opt.timestep)
   kinds = "+".join(sorted({mujoco.mjtJoint(int(t)).name[6:].lower() for t in mjm.jnt_type}))
+  # a free-joint body without child bodies: MuJoCo 3.13's implicitfast keeps the derivative of its gyroscopic force (see the listed
+  # finding F-C08-implicitfast-gyroscopic-derivative); the flag is part of the violation class so that the listing stays narrow
+  has_child = set(int(p_) for p_ in mjm.body_parentid[1:])
+  leaf_free = bool(any(int(mjm.jnt_type[j]) == 0 and int(mjm.jnt_bodyid[j]) not in has_child for j in range(mjm.njnt)))
   viols = []
   # (rtol, atol) per component. Unconstrained steps are pure smooth dynamics + integrator arithmetic: float32 round-off only (calibrated
   # on the repaired tree: worst observed error / scale, recorded in faults_fired.worst_*_relerr_x1e9, is below 1/20 of these values).
@@ -131,6 +135,21 @@ def run(sc):
         # a row whose Jacobian vanishes (D = 1/diagApprox = 1e15): its force is round-off times 1e15 in either engine
         stats["skipped"]["degenerate_constraint_row"] = stats["skipped"].get("degenerate_constraint_row", 0) + 1
         continue
+      if constrained and integ != "rk4" and mjm.nv:
+        # how well does the reference satisfy its own equation of motion?  r = M qacc - qfrc_smooth - qfrc_constraint is the residual of
+        # MuJoCo's solver (float64); mj_implicit integrates qfrc_smooth + qfrc_constraint while mujoco_warp integrates M qacc, so on a
+        # step where constraint and smooth forces cancel to 1e-4 (1e6 N against 1e2 N of inertia) the two differ by h * M^-1 r although both
+        # are right. The reference is no reference at a tolerance it does not meet itself: such steps are skipped and counted.
+        rr = np.zeros(mjm.nv)
+        mujoco.mj_mulM(mjm, mjd, rr, mjd.qacc)
+        rr -= mjd.qfrc_smooth + mjd.qfrc_constraint
+        xx = np.zeros((1, mjm.nv))
+        mujoco.mj_solveM(mjm, mjd, xx, rr.reshape(1, -1))
+        ref_dv = dt * float(np.max(np.abs(xx)))
+        vscale = max(float(np.max(np.abs(mjd.qvel))), dt * float(np.max(np.abs(mjd.qacc))), 1e-3)
+        if ref_dv > 0.25 * (TOL_CON["qvel"][1] + TOL_CON["qvel"][0] * vscale):
+          stats["skipped"]["reference_residual_exceeds_tolerance"] = stats["skipped"].get("reference_residual_exceeds_tolerance", 0) + 1
+          continue
       if constrained and (int(niter_w[w]) > 40 or (mjd.nefc and int(mjd.solver_niter[0]) > 40)):
         # a constrained step on which either Newton/CG solver needs more than 40 iterations is ill-conditioned: the two solvers stop at
         # different points of a flat cost valley and the difference is set by their termination tests, not by the integrator
@@ -172,7 +191,8 @@ def run(sc):
         stats["faults"][key] = max(stats["faults"].get(key, 0), int(1e9 * err / scale))
         if err > tol:
           i = int(np.argmax(np.abs(x - y)))
-          viols.append({"class": {"oracle": "step_matches_mujoco", "component": name, "integrator": integ, "constrained": bool(constrained)},
+          viols.append({"class": {"oracle": "step_matches_mujoco", "component": name, "integrator": integ, "constrained": bool(constrained),
+                                  "leaf_free_body": leaf_free},
                         "detail": {"step": k + 1, "world": w, "index": i, "got": float(x[i]), "want": float(y[i]), "err": err, "tol": tol, "nefc": int(nefc_w[w]),
                                    "mj_nefc": int(mjd.nefc), "mjw_niter": int(d.solver_niter.numpy()[w]), "mj_niter": int(mjd.solver_niter[0])}})
           break
